@@ -234,6 +234,11 @@ func alignWindowStart(timestamp time.Time, windowSize time.Duration) time.Time {
 	// Align to window boundary (downward alignment)
 	// This creates consistent window boundaries aligned to epoch
 	alignedNano := (unixNano / windowSizeNano) * windowSizeNano
+	if alignedNano > unixNano {
+		// Go's integer division truncates toward zero: for pre-epoch (negative)
+		// timestamps that rounds up, so step back one window to align downward.
+		alignedNano -= windowSizeNano
+	}
 
 	// Convert back to time.Time
 	return time.Unix(0, alignedNano).UTC()
